@@ -52,7 +52,9 @@ func Selftest() int {
 	expectViolation("CrlReader.tla with BoundByTbs = FALSE (optional parts by next tag only)", tlcrun.Options{SpecDir: sd, Module: "CrlReader", Config: "MC_CrlReader_asis.cfg", Workers: 4}, "RejectsOutOfProfile")
 	expectViolation("Refresher.tla with Global = TRUE (process-wide finish timestamp)", tlcrun.Options{SpecDir: sd, Module: "Refresher", Config: "MC_Refresher_asis.cfg", Workers: 2}, "BoundedRefresh")
 	expectViolation("EntryLocks.tla with Relock = TRUE (callee re-locks)", tlcrun.Options{SpecDir: sd, Module: "EntryLocks", Workers: 2,
-		Config: "SPECIFICATION Spec\nCONSTANTS Relock = TRUE\nINVARIANTS NoDeadlock\nCHECK_DEADLOCK FALSE\n"}, "NoDeadlock")
+		Config: "SPECIFICATION Spec\nCONSTANTS\n Relock = TRUE\n Recheck = TRUE\nINVARIANTS NoDeadlock\nCHECK_DEADLOCK FALSE\n"}, "NoDeadlock")
+	expectViolation("EntryLocks.tla with Recheck = FALSE (callee trusts the caller's earlier read)", tlcrun.Options{SpecDir: sd, Module: "EntryLocks", Workers: 2,
+		Config: "SPECIFICATION Spec\nCONSTANTS\n Relock = FALSE\n Recheck = FALSE\nINVARIANTS NoCrash\nCHECK_DEADLOCK FALSE\n"}, "NoCrash")
 	expectViolation("Authz.tla + D18 (end-entity / no cRLSign accepted as CRL signer)", tlcrun.Options{SpecDir: sd, Module: "MCAuthz", Config: "MC_Authz_asis.cfg", Workers: 4}, "OnlyEntitled")
 	oc := ocspCfg(false, 2, "absent", []string{"good"}, []string{"revoked"})
 	ocspMut := func(expiry, key string) tlcrun.Options {
@@ -92,7 +94,7 @@ func Selftest() int {
 	for _, cfg := range []struct{ mod, cfg string }{{"CrlStore", "MC_CrlStore_fault.cfg"}, {"CrlReader", "MC_CrlReader_fault.cfg"}, {"CrlRepo", "MC_CrlRepo.cfg"}, {"CrlRepo", "MC_CrlRepo_mem.cfg"}, {"Refresher", "MC_Refresher.cfg"}, {"EntryLocks", "MC_EntryLocks.cfg"}} {
 		res := tlcrun.Run(tlcrun.Options{SpecDir: sd, Module: cfg.mod, Config: cfg.cfg, Workers: 4, Coverage: true})
 		// actions that are disabled by construction in that configuration (covered by the sibling configuration)
-		expectedZero := map[string]bool{"LMapSwap": cfg.cfg == "MC_CrlRepo.cfg", "HTryLock": cfg.mod == "EntryLocks"}
+		expectedZero := map[string]bool{"LMapSwap": cfg.cfg == "MC_CrlRepo.cfg"}
 		if cfg.cfg == "MC_CrlRepo_mem.cfg" {
 			for _, a := range []string{"LCloseOld", "LCloseNew", "LMvAside", "LMvNew", "LRmOld", "LReopen", "Crash", "Restart"} {
 				expectedZero[a] = true
